@@ -5,7 +5,7 @@ import ast
 
 from rules.setuse import parents_of
 from . import generic
-from sa.absint import Evaluator, flatten_effects
+from sa.absint import Evaluator, all_effects, flatten_effects
 from sa.escape import ANY, BYTES_U, HANY, TRUSTED, FunctionAnalysis, Val, exc_is, tval
 from sa.index import AnalysisError, walk_no_nested
 from sa.schema import TypeRef
@@ -454,7 +454,73 @@ def _is_sharing_guard(ctx, fi) -> bool:
     covers = "list" in kinds and maps_ok and "CBORTag" in kinds and "bytes" in kinds and "str" in kinds
     loops = any(isinstance(n, (ast.While, ast.For)) for n in ast.walk(node)) or any(
         isinstance(n, ast.Call) and isinstance(n.func, (ast.Name, ast.Attribute)) and ast.unparse(n.func).split(".")[-1] == fi.name for n in ast.walk(node))
-    return bool(tested and covers and loops)
+    if not bool(tested and covers and loops):
+        return False
+    # ... and the items that can be shared are really remembered: evaluated on sample items (a rule on the tests alone cannot see a
+    # `continue` that drops a kind after it was classified).  None = not evaluable: the structural verdict stands
+    tracked = _tracked_kinds(ctx, fi)
+    if tracked is not None and tracked:
+        ctx.report.info(f"sharing guard {fi.qualname}: items of these kinds are walked but never remembered: {tracked}")
+        return False
+    return True
+
+
+def _tracked_kinds(ctx, fi):
+    """Kinds of shareable items (text / byte strings longer than one element, non-empty list / tuple / map, tag) for which the walk does
+    NOT reach `seen.add(id(item))`: [] when all are remembered, None when the walk cannot be evaluated on samples."""
+    from sa.teval import teval, Unknown
+    try:
+        outs = Evaluator(ctx.repo, inline_depth=0).outcomes(fi)
+    except AnalysisError:
+        return None
+    from sa.teval import CBORTag as _Tag
+    samples = {"text string": "ab", "byte string": b"ab", "list": [1], "tuple": (1,), "map": {1: 2}, "tag": _Tag(5, 1)}
+
+    def is_add(e):
+        return isinstance(e, App) and e.op == "eff:call" and isinstance(e.args[0], App) and e.args[0].op == "meth:add" and len(e.args[0].args) == 2 \
+            and isinstance(e.args[0].args[1], App) and e.args[0].args[1].op == "call:id"
+
+    def reaches(effs, env):
+        """True: the add is reached; False: the path is blocked / ends before; raises Unknown"""
+        for e in effs:
+            if not isinstance(e, App):
+                continue
+            if is_add(e):
+                return True
+            if e.op == "eff:assume":
+                if not teval(e.args[0], env):
+                    return False
+            elif e.op == "eff:if":
+                branch = e.args[1].args if teval(e.args[0], env) else e.args[2].args
+                r = reaches(branch, env)
+                if r:
+                    return True
+            elif e.op == "eff:alts":
+                if any(reaches(alt.args, env) for alt in e.args):
+                    return True
+            elif e.op in ("eff:loop",):
+                if reaches(e.args[1].args, env):
+                    return True
+            elif e.op == "eff:partial":
+                if reaches(e.args[0].args, env):
+                    return True
+        return False
+    adds = [e for o in outs for e in all_effects(o.effects) if is_add(e)]
+    if not adds:
+        return None
+    item = adds[0].args[0].args[1].args[0]
+    seen = adds[0].args[0].args[0]
+    missing = []
+    try:
+        for kind, smp in samples.items():
+            env = {item: smp, seen: set()}
+            if not any(reaches(o.effects, env) for o in outs if o.kind == "return"):
+                missing.append(kind)
+    except Unknown:
+        return None
+    except Exception:
+        return None
+    return missing
 
 
 def _refuses_snan(ctx, fi) -> bool:
